@@ -10,7 +10,7 @@ def run(rep, tier, seed):
                 "leaves drawn from Go int variables, float literals/variables, strings, bools, recording probes, index, call, "
                 "field and parenthesised operands; only trees in the property's typed fragment (the specification assigns a "
                 "value, no zero divisor) are emitted; each tree is rendered in four surface forms (spaces, no spaces, full "
-                "parentheses, keyword spellings); non-trivial: at least one operator; distinct by (shape, operators, leaves)")
+                "parentheses, keyword spellings); non-trivial: at least one operator; distinct by (shape, operators, leaves). History probe (held values): 24 operator expressions x 4 operand kinds bound to a variable across a recursive yield of their block, and kept by a jet.Func across the iterations of a range, equal the expression evaluated once on its own, in two executions")
     cfgs = ["MC_Expr_b1.cfg", "MC_Expr_quick.cfg"] if tier == "quick" else ["MC_Expr_b1.cfg", "MC_Expr_quick.cfg", "MC_Expr_thorough.cfg"]
     for cfg in cfgs:
         vec = os.path.join(wd, cfg + ".ndjson")
